@@ -258,6 +258,54 @@ fn c19a_child_status_two_outcomes() {
     std::mem::forget(st);
 }
 
+/// Three exchanges at t1 < t2 < t3 (success / failure / suspend each).
+// vk: tier=thorough; timeout=2400; bound=3 outcomes (each success / failure / suspend), strictly increasing symbolic times
+#[kani::proof]
+#[kani::unwind(4)]
+#[kani::stub(rpki::repository::x509::Time::now, stub_now)]
+#[kani::stub(std::hash::RandomState::new, fixed_random_state)]
+fn c19a_child_status_three_outcomes() {
+    let mut st = ChildStatus::default();
+    let ops: [u8; 3] = kani::any();
+    kani::assume(ops[0] < 3 && ops[1] < 3 && ops[2] < 3);
+    let mut times = [0i64; 3];
+    let mut i = 0;
+    while i < 3 {
+        times[i] = if i == 0 { sym_now().timestamp() } else { advance_now().timestamp() };
+        match ops[i] {
+            0 => st.set_success(None),
+            1 => st.set_failure(None, an_error()),
+            _ => st.set_suspended(),
+        }
+        i += 1;
+    }
+    // expected record: last exchange = last op that is not a suspension
+    let mut last_exch: Option<(u8, i64)> = None;
+    let mut last_succ: Option<i64> = None;
+    let mut suspended: Option<i64> = None;
+    let mut j = 0;
+    while j < 3 {
+        if ops[j] < 2 { last_exch = Some((ops[j], times[j])); suspended = None; }
+        if ops[j] == 0 { last_succ = Some(times[j]); }
+        if ops[j] == 2 { suspended = Some(times[j]); }
+        j += 1;
+    }
+    assert!(child_shows_failure(&st) == matches!(last_exch, Some((1, _))));
+    match (&st.last_exchange, last_exch) {
+        (None, None) => {}
+        (Some(e), Some((op, t))) => {
+            assert!(e.result.was_success() == (op == 0));
+            assert!(e.timestamp == Timestamp::new(t));
+        }
+        _ => { assert!(false); }
+    }
+    assert!(st.last_success == last_succ.map(Timestamp::new));
+    assert!(st.suspended == suspended.map(Timestamp::new));
+    kani::cover!(ops[0] == 0 && ops[1] == 2 && ops[2] == 1);
+    kani::cover!(ops[0] == 1 && ops[1] == 0 && ops[2] == 1);
+    std::mem::forget(st);
+}
+
 fn http() -> ServiceUri { ServiceUri::Http(String::new()) }
 
 fn exch_failed(e: &Option<ParentExchange>) -> bool {
